@@ -38,11 +38,12 @@ def run_history(job):
     build; create the higher-priority candidate `high` (possibly inside a directory that did not exist when the
     rule was first looked up); redo-ifchange must rebuild the target with `high`; remove `high`; redo-ifchange must
     rebuild it with `low` again; a further redo-ifchange runs nothing."""
-    root, bindir, target_rel, low, high, premkdir, idx = job
+    root, bindir, target_rel, low, high, premkdir, idx = job[:7]
+    via_link = len(job) > 7 and job[7]      # the higher-priority candidate first appears as a DANGLING symbolic link
     top = os.path.join(root, f"h{idx}")
     PR = os.path.join(top, "pr")
     home = os.path.join(top, "home")
-    res = {"target": target_rel, "low": low, "high": high, "premkdir": premkdir, "violations": [], "runs": 0}
+    res = {"target": target_rel, "low": low, "high": high, "premkdir": premkdir, "via_link": bool(via_link), "violations": [], "runs": 0}
     try:
         os.makedirs(PR)
         os.makedirs(home)
@@ -82,10 +83,29 @@ def run_history(job):
         place(low)
         if not build("initial-build", low):
             return res
+        hp = os.path.join(cands[high]["do_dir"], cands[high]["do_file"])
+        if via_link:
+            # a link that leads nowhere is no script: the target stays as it is (and is not rebuilt); once the link's
+            # destination appears it is the script of highest priority; when the destination goes, the old one is back
+            os.makedirs(cands[high]["do_dir"], exist_ok=True)
+            os.symlink(cands[high]["do_file"] + ".real", hp)
+            before = os.stat(tpath).st_ino
+            if not build("dangling-link-under-a-rule-name-taken-for-a-script", low):
+                return res
+            if os.stat(tpath).st_ino != before:
+                res["violations"].append({"kind": "history-rebuilt-because-of-a-dangling-link"})
+            with open(hp + ".real", "w") as fh:
+                fh.write(HSCRIPT.format(id=high))
+            if not build("higher-priority-script-added-but-not-used", high):
+                return res
+            os.unlink(hp + ".real")
+            if not build("chosen-script-removed-but-target-not-rebuilt", low):
+                return res
+            return res
         place(high)
         if not build("higher-priority-script-added-but-not-used", high):
             return res
-        os.unlink(os.path.join(cands[high]["do_dir"], cands[high]["do_file"]))
+        os.unlink(hp)
         if not build("chosen-script-removed-but-target-not-rebuilt", low):
             return res
         before = os.stat(tpath).st_ino
@@ -113,6 +133,8 @@ def extra_checks(tier, verdict, cov):
                 for premkdir in (True, False):
                     jobs.append((root, bindir, t, low, high, premkdir, idx))
                     idx += 1
+                jobs.append((root, bindir, t, low, high, True, idx, True))
+                idx += 1
     bad = []
     runs = 0
     with concurrent.futures.ProcessPoolExecutor(max_workers=min(16, max(1, common.NCPU))) as ex:
@@ -125,13 +147,15 @@ def extra_checks(tier, verdict, cov):
     seen = set()
     for r, v in sorted(bad, key=lambda rv: (rv[0]["low"], rv[0]["high"], len(rv[0]["target"]))):
         sig = {"kind": v["kind"], "target": r["target"], "target_dir_existed": r["premkdir"]}
+        if r.get("via_link"):
+            sig["via_link"] = True
         key = json.dumps(sig, sort_keys=True)
         if key in seen:
             continue
         seen.add(key)
         if len(seen) <= 10:
             verdict.report(sig, {"engine": "E1-history", "check": "history", "target": r["target"], "low": r["low"],
-                                 "high": r["high"], "premkdir": r["premkdir"], "violation": v})
+                                 "high": r["high"], "premkdir": r["premkdir"], "via_link": r.get("via_link", False), "violation": v})
     if cov is not None:
         cov["histories"] = {"targets": targets, "histories": len(jobs), "commands_run": runs, "violating": len(bad)}
         cov["evaluations"] += len(jobs)
@@ -505,6 +529,13 @@ def replay(path):
                 print(json.dumps({"placed": r["placed"], "violation": v, "whichdo": r.get("whichdo"),
                                   "redo": r.get("redo")}, indent=1, ensure_ascii=False))
             bad = len(allbad)
+        elif doc.get("check") == "history":
+            root = str(common.scratch_root() / "c13h")
+            os.makedirs(root, exist_ok=True)
+            r = run_history((root, str(common.build_subject()), doc["target"], doc["low"], doc["high"], doc["premkdir"], 0,
+                             bool(doc.get("via_link"))))
+            print(json.dumps(r, indent=1, ensure_ascii=False))
+            bad = len(r["violations"])
         else:
             raise MachineryError(f"C13 replay: unknown check {doc.get('check')!r}")
     finally:
